@@ -14,10 +14,10 @@ use crate::val::*;
 pub struct C01;
 
 #[derive(Clone, Copy, PartialEq, Debug)]
-enum Intent { Int, Real, Word, Any, Year, Month, Day, Hour, Minute, Second, Frac }
+pub enum Intent { Int, Real, Word, Any, Year, Month, Day, Hour, Minute, Second, Frac }
 
-struct GroupT { regex: &'static str, key: String, optional: bool, intent: Intent }
-struct PatT { name: String, prefix: String, sep: String, groups: Vec<GroupT>, split: Option<&'static str> }
+pub struct GroupT { regex: &'static str, key: String, optional: bool, intent: Intent }
+pub struct PatT { name: String, prefix: String, sep: String, groups: Vec<GroupT>, split: Option<&'static str> }
 
 const INT_TEXTS: &[&str] = &["0", "-1", "42", "+7", "007", "9223372036854775807", "9223372036854775808", "-9223372036854775808", "-9223372036854775809", "4294967297", "", "12a", "1.0", " 5", "1e3", "-0"];
 const REAL_TEXTS: &[&str] = &["1.5", "-0.0", "1e5", "inf", "-inf", "NaN", ".5", "1.", "1e400", "--1", "2", "+3.25", "1e-400", "1.2.3", "infinity", "0x10", "1_0", "e5", ""];
@@ -77,7 +77,7 @@ fn pattern_instance(rng: &mut Rng, p: &PatT) -> String {
     out
 }
 
-fn gen_table(rng: &mut Rng) -> (TableSpec, Vec<PatT>) {
+pub fn gen_table(rng: &mut Rng) -> (TableSpec, Vec<PatT>) {
     let npat = 1 + rng.below(3);
     let mut pats = Vec::new();
     for pi in 0..npat {
@@ -131,7 +131,7 @@ fn gen_table(rng: &mut Rng) -> (TableSpec, Vec<PatT>) {
     (spec, pats)
 }
 
-fn gen_line(rng: &mut Rng, pats: &[PatT]) -> String {
+pub fn gen_line(rng: &mut Rng, pats: &[PatT]) -> String {
     match rng.below(12) {
         0 => return String::new(),
         1 => { let n = rng.below(30); return (0..n).map(|_| *rng.pick(&['a', ':', ';', ' ', '1', '=', '-', '\u{e5}', '|', ','])).collect(); }
